@@ -747,7 +747,8 @@ class Gen:
                     linkage_s=4, calling_convention=6, transfer=4, transfer_l=2, transfer_c=2, as_type_id=4,
                     pointer=4, qualified=2, product_seq=2, forall=2, function=1, fresh=5),
         'C11': dict(qualified=40, pointer=6, reference=3, array=3, product_seq=3, function=3, sum_seq=2, ptr_to_member=2,
-                    as_type_expr=2, as_type_id=2, identifier_w=2, literal_w=2, fresh=4, forall=2, tor=1),
+                    as_type_expr=2, as_type_id=2, identifier_w=2, literal_w=2, fresh=4, forall=2, tor=1,
+                    function_x=3, function_ex=1, as_type_x=3, transfer=2, transfer_l=1, transfer_c=1, linkage_w=1, calling_convention=1),
     }
 
     def prologue(self):
@@ -1156,6 +1157,34 @@ def qualified_operand_sweep(g, rounds):
         g.stats['_qualified_operand_requests'] = g.stats.get('_qualified_operand_requests', 0) + len(asked)
 
 
+def qualified_scale(g, n_types):
+    """Thousands of qualified types in ONE Lexicon (more than any block of a block allocator or any first size of a table holds): every
+    non-empty standard set over `n_types` fresh unqualified types, each answer read back at once (qualifiers, main variant); then the
+    early ones again, then all of them again in another order, two-step requests among them."""
+    rng = g.rng
+    g.prologue()
+    ts = [g.emit('fresh', [rng.choice([0, 1, 2])], False) for _ in range(n_types)]
+    asked = []
+    for i, t in enumerate(ts):
+        for q in range(1, 8):
+            h = g.emit('qualified', [q, t], False)
+            asked.append((q, t))
+            if (i * 7 + q) % 97 == 0 or len(asked) in (4095, 4096, 4097, 4098, 8191, 8192, 8193, 8194):
+                g.observe_some(h)
+        if i % 50 == 0:
+            for q, t0 in asked[:14]:
+                g.observe_some(g.emit('qualified', [q, t0], False))
+    rng.shuffle(asked)
+    for k, (q, t) in enumerate(asked):
+        if k % 9 == 0 and bin(q).count('1') >= 2:
+            low = q & -q
+            h = g.emit('qualified', [q & ~low, g.emit('qualified', [low, t], False)], False)
+        else:
+            h = g.emit('qualified', [q, t], False)
+        if k % 61 == 0: g.observe_some(h)
+    g.stats['_qualified_types_in_one_lexicon'] = len(asked)
+
+
 def last_requests(g):
     """What a Lexicon about to be destroyed is asked last: every constructor of the profile once more, and a re-qualification."""
     ops = list(g.WEIGHTS[g.profile])
@@ -1204,6 +1233,12 @@ def build_histories(pid, tier, seed, words, builtins):
                      g.emit('as_type_expr', [g.emit('const', ['true'])]), g.emit('as_type_id', [g.emit('identifier_w', [b'__int128'])]),
                      g.emit('forall', [g.emit('product_seq', []), P('type')]), g.emit('fresh', [0]), g.emit('fresh', [2]), g.emit('fresh', [1]),
                      g.emit('tor', [g.emit('product_seq', []), g.emit('sum_seq', [])])]
+            # main variants that carry a transfer of their own (`extern "C"` function types, types named through a foreign transfer)
+            xc = g.emit('transfer_l', [g.emit('linkage_w', [b'C'])])
+            xs = g.emit('transfer', [g.emit('linkage_w', [b'C++']), g.emit('calling_convention', [b'__stdcall'])])
+            kinds = [g.emit('function_x', [g.emit('product_seq', [P('type')]), P('type'), xc]),
+                     g.emit('function_x', [g.emit('product_seq', []), P('type'), xs]),
+                     g.emit('as_type_x', [g.emit('const', ['true']), xc])] + kinds
             kinds = [k for k in kinds if k is not None and k.tag != 'qualifieds']
             qualifier_sweep(g, 3 if tier == 'quick' else 5, kinds if tier == 'quick' else kinds[:6])
             # several main variants at once, direct and re-qualification requests interleaved, overlapping successive sets; among the
@@ -1218,6 +1253,8 @@ def build_histories(pid, tier, seed, words, builtins):
             qualifier_mix(g, [t for t in mix if t is not None and t.tag != 'qualifieds'], 6)
         if pid == 'C01' and i in (1, 2):
             nesting_sweep(g, 3 if tier == 'quick' else 12)
+        if pid == 'C11' and i == 2:
+            qualified_scale(g, 700 if tier == 'quick' else 2600)
         if pid in ('C01', 'C04') and i in (0, 3):
             lookalike_operand_sweep(g, 4 if tier == 'quick' else 20)
         if pid in ('C01', 'C04') and i in (1, 2):
